@@ -98,7 +98,7 @@ var pureMethods = map[string]bool{
 	"(time.Time).Unix": true, "(time.Time).UnixNano": true, "(time.Time).UnixMilli": true, "(time.Time).IsZero": true,
 	"(time.Time).Nanosecond": true, "(time.Time).UnixMicro": true,
 	"(reflect.Value).Len": true, "(reflect.Value).NumField": true, "(reflect.Value).Kind": true,
-	"(reflect.Value).Int": true, "(reflect.Value).Uint": true,
+	"(reflect.Value).Int": true, "(reflect.Value).Uint": true, "(reflect.Value).Type": true, "(reflect.Value).Index": true, "(reflect.Type).Elem": true,
 	"(reflect.Type).NumField": true, "(reflect.Type).Kind": true, "(reflect.Type).Name": true, "(hessian.CodecNamable).HessianCodecName": true,
 }
 
@@ -447,6 +447,11 @@ func (f *Flow) evalStruct(t *Term, env Env, fl *evalFlags) ISet {
 			// the receiver's Kind, so the Kind facts bound the result
 			kk := "pure:(reflect.Value).Kind(" + t.Args[0].key + ")"
 			ks, ok := env[kk]
+			if !ok && t.Args[0].K == TPure && t.Args[0].Name == "(reflect.Value).Index" {
+				// reflect semantics: the kind of an element is the kind of the container type's element type
+				alt := "pure:(reflect.Type).Kind(pure:(reflect.Type).Elem(pure:(reflect.Value).Type(" + t.Args[0].Args[0].key + ")))"
+				ks, ok = env[alt]
+			}
 			if !ok {
 				return top
 			}
